@@ -46,7 +46,7 @@ def main(argv=None):
             mod.replay(ctx, data)
         else:
             mod.run(ctx)
-        return core.finish(ctx)
+        return core.finish(ctx, replay=bool(a.replay))
     except core.HarnessError as e:
         print("HARNESS-ERROR:", e)
         return 2
